@@ -153,3 +153,28 @@ def assumptions(ctx):
     ctx.ev.assume("tags are raw integers (no mapping storage), the string top is an unmapped string; a handler-what "
                   "serves 7 functions (tsValueCount), so 2/3 handler-whats are exercised with 9/19 functions")
     ctx.ev.assume("markers carry all group-by tags (as the markers returned by the endpoint do)")
+
+
+def replay(ctx, path):
+    """Re-run one stored witness (a mismatch file written by this check) on the current tree."""
+    with open(path) as f:
+        txt = f.read()
+    if path.endswith(".ndjson"):        # a rejected trace: validate it again
+        tv = validate_trace(ctx, path, "trace replay")
+        if tv.violated:
+            ctx.violation(TRACE_SIG.get(tv.violated, "trace-rejected"), "stored trace still rejected: %s" % tv.violated, path)
+        return
+    mm = json.loads(txt)
+    beh = mm.get("beh") or {}
+    if "walk" in beh:
+        test, inp, stage = "TestVerifC25Paging", [beh["walk"]], "paging"
+    elif "lods" in beh and "st" in beh:
+        beh.pop("exp", None)
+        test, inp, stage = "TestVerifC25Enum", [beh], "enum"
+    else:
+        test, inp, stage = "TestVerifC25Endpoint", None, "endpoint"
+    res, out, rc = ctx.go_test("internal/api", test, inp=inp, timeout=900)
+    res = ctx.need_result(res, out, rc, test)
+    n = ctx.replay_s2i_mismatches(res, stage)
+    ctx.ev.add_impl("replayed witness %s" % path, res["replayed"] if n == 0 else 0)
+    print("replayed %s with %s: %d mismatches" % (path, test, n))
